@@ -164,6 +164,15 @@ func vRunC12(c *vCase) {
 		vRunC12Roach(c)
 		return
 	}
+	if c.Idx%200 == 57 {
+		// the Abaco caller: scripted packet streams through readerMainLoop/demuxData with unwrapping on, every channel's
+		// emitted stream against one reference unwrapper run (C03's harness, forced into its unwrapping mode)
+		vAbForceUnwrap = true
+		vRunAbaco(c)
+		vAbForceUnwrap = false
+		c.Cov("abaco_path_runs", 1)
+		return
+	}
 	r := c.R
 	var o vUnwrapOpts
 	switch r.Intn(4) {
